@@ -27,7 +27,7 @@ var idPool = []string{
 
 var badIds = []interface{}{"not-a-uuid", "1234", int64(5), "00000000-0000-4000-8000-00000000000g", true}
 
-var collNames = []string{"c", "cc", "d", "c d", "ü", "coll", "c:"}
+var collNames = []string{"c", "cc", "d", "c d", "ü", "coll", "c:", "%d", "100%"}
 var fieldNames = []string{"a", "b", "ab", "x", "xy", "n", "n.a", "s", "_id", "t"}
 
 type HistCfg struct {
@@ -198,6 +198,10 @@ func (h *HistGen) doc(withId string) map[string]interface{} {
 
 func (h *HistGen) literal() interface{} {
 	g := h.g
+	if g.Chance(0.025) {
+		// a literal Normalize rejects: the criteria cannot be normalised and the operation fails before any effect
+		return pickOf(g, []interface{}{make(chan int), func() {}, complex(1, 2), map[int]string{1: "a"}, []interface{}{1, make(chan int)}})
+	}
 	if g.Chance(0.1) {
 		return pickOf(g, []interface{}{int(-1), int64(-3), int8(-2), float64(-1.5), float32(-1)})
 	}
@@ -324,6 +328,11 @@ func (h *HistGen) crit(depth int) *Crit {
 		return &Crit{Kind: "like", Field: pickOf(g, []string{"s", "a", "b"}), Pat: pickOf(g, likePats)}
 	case 14:
 		return &Crit{Kind: "fun", Fun: g.Intn(6)}
+	case 15:
+		if g.Chance(0.5) {
+			return &Crit{Kind: pickOf(g, []string{"isnil", "istrue", "isfalse", "isnilornot"}), Field: f}
+		}
+		fallthrough
 	default:
 		lit := int(g.Intn(8))
 		if g.Chance(0.25) {
@@ -438,7 +447,7 @@ func (h *HistGen) query(coll string, allowWindow, allowSort bool) QSpec {
 		q.Steps = append(q.Steps, QStep{Kind: "skip", N: pickOf(g, []int{-1, 0, 1, 2, 5, 100})})
 	}
 	if allowWindow && g.Chance(0.3) {
-		q.Steps = append(q.Steps, QStep{Kind: "limit", N: pickOf(g, []int{-5, -1, 0, 1, 2, 3, 100})})
+		q.Steps = append(q.Steps, QStep{Kind: "limit", N: pickOf(g, []int{-5, -1, 0, 1, 2, 3, 100, math.MaxInt, math.MinInt})})
 	}
 	// builder calls are order-insensitive except for overriding: shuffle
 	g.r.Shuffle(len(q.Steps), func(i, j int) { q.Steps[i], q.Steps[j] = q.Steps[j], q.Steps[i] })
